@@ -6,7 +6,7 @@ in-place updates are written as statements (`x.add_(1)`), as re-bindings of the 
 matched.  Expected count on the tree: zero; a positive and a negative fixture run on every invocation.
 """
 import ast
-from .core import RuleResult, Finding, AnalysisError, src, norm_construct, guarded
+from .core import RuleResult, Finding, AnalysisError, src, norm_construct, guarded, dotted
 
 VIEW_METHODS = {'view', 'reshape', 'squeeze', 'unsqueeze', 'detach', 'transpose', 'permute', 'expand', 'flatten', 'contiguous', 'T', 'mT', 'real'}
 
@@ -114,5 +114,63 @@ def rule_ipalias(repo, rid, modules):
     fx = ast.parse('def f(g, x):\n    s = g.sqrt_()\n    a = 1 - (1 + 2 * x / g).sqrt()\n    return s, a\n'
                    'def h(g, x):\n    g = g.clamp_(0)\n    s = g.sqrt()\n    x.add_(1)\n    return s * g\n').body
     if len(alias_hazards(fx[0])) != 1 or alias_hazards(fx[1]):
+        raise AnalysisError('%s: fixtures no longer classified' % rid)
+    return res
+
+
+# ------------------------------------------------------------------------------------------------ in-place update of an advanced-indexing copy
+def lost_updates(fnode):
+    """[(stmt, subscript)]: `x[M].op_(..)` as a statement where M is a boolean mask / index TENSOR: advanced indexing returns a copy, the in-place operation
+    changes that temporary and x keeps its old values (basic indexing - ints, slices, ... - returns a view and is fine)"""
+    masks = set()
+    for n in ast.walk(fnode):
+        if isinstance(n, ast.Assign) and len(n.targets) == 1 and isinstance(n.targets[0], ast.Name):
+            v = n.value
+            core = v
+            while isinstance(core, ast.Call) and isinstance(core.func, ast.Attribute) and core.func.attr in ('squeeze', 'unsqueeze', 'view', 'reshape', 'clone', 'bool', 'flatten', 'expand_as'):
+                core = core.func.value
+            if isinstance(core, (ast.Compare,)) or (isinstance(core, ast.UnaryOp) and isinstance(core.op, ast.Invert)) or \
+                    (isinstance(core, ast.BinOp) and isinstance(core.op, (ast.BitAnd, ast.BitOr, ast.BitXor))) or \
+                    (isinstance(core, ast.Call) and (dotted(core.func) or (core.func.attr if isinstance(core.func, ast.Attribute) else '')).split('.')[-1] in
+                     ('nonzero', 'where', 'arange', 'tensor', 'argsort', 'topk', 'randperm', 'isnan', 'isfinite', 'isclose', 'logical_and', 'logical_or', 'logical_not', 'gt', 'lt', 'ge', 'le', 'eq', 'ne')):
+                masks.add(n.targets[0].id)
+    out = []
+    for n in ast.walk(fnode):
+        if not (isinstance(n, ast.Expr) and isinstance(n.value, ast.Call) and isinstance(n.value.func, ast.Attribute)):
+            continue
+        c = n.value
+        # innermost receiver of a chain of in-place calls
+        recv = c.func.value
+        name = c.func.attr
+        while isinstance(recv, ast.Call) and isinstance(recv.func, ast.Attribute) and recv.func.attr.endswith('_') and not recv.func.attr.endswith('__'):
+            name = recv.func.attr
+            recv = recv.func.value
+        if not (name.endswith('_') and not name.endswith('__')):
+            continue
+        if not isinstance(recv, ast.Subscript):
+            continue
+        idx = recv.slice.elts if isinstance(recv.slice, ast.Tuple) else [recv.slice]
+        adv = [x for x in idx if (isinstance(x, ast.Name) and x.id in masks) or isinstance(x, (ast.Compare, ast.List)) or
+               (isinstance(x, ast.UnaryOp) and isinstance(x.op, ast.Invert)) or (isinstance(x, ast.BinOp) and isinstance(x.op, (ast.BitAnd, ast.BitOr)))]
+        if adv:
+            out.append((n, recv))
+    return out
+
+
+@guarded
+def rule_lostupdate(repo, rid, modules):
+    res = RuleResult(rid, 'no statement applies an in-place method to the result of boolean-mask / index-tensor indexing (`x[M].op_(..)`): that result is a copy, the '
+                     'update never reaches x (write `x[M] = x[M] op ..` or index_put_ / masked ops)', floor=1)
+    n = 0
+    for m in modules:
+        for f in repo.module(m).functions.values():
+            n += 1
+            for st, sub in lost_updates(f.node):
+                res.inst({'function': f.fq, 'statement': src(st)[:70]}, (f.fq, src(st)[:70]))
+                res.add(Finding(rid, f, '`%s`: `%s` is advanced indexing and returns a COPY; the in-place operation modifies the temporary and `%s` keeps its old values - '
+                                'the correction is silently dropped' % (src(st)[:70], src(sub)[:30], src(sub.value)[:20]), node=st, construct='in-place on an indexing copy|' + src(sub.value)[:20]))
+    res.inst({'functions scanned': n}, 'scan')
+    fx = ast.parse('def f(x, a):\n    M = a > 0\n    x[M].sub_(1)\n    x[..., :3].add_(1)\n    x[M] = x[M] - 1\n    return x\n').body[0]
+    if len(lost_updates(fx)) != 1:
         raise AnalysisError('%s: fixtures no longer classified' % rid)
     return res
